@@ -132,6 +132,12 @@ class History:
             if derived:
                 it["under"] = it["under"] + derived
                 it["sub"] = dict(it["sub"], **{k2: token(v) for k2 in derived})
+            # ClassifierAfterKMeans advertises the parameters of `clus` / `estimator` a second time under the prefixes c_ / e_
+            # (documented aliases): replacing the sub-estimator owns those keys too
+            alias = {"clus": "c_", "estimator": "e_"}.get(k) if type(obj).__name__ == "ClassifierAfterKMeans" else None
+            if alias and hasattr(v, "get_params"):
+                it["under"] = it["under"] + [k2 for k2 in pre if k2.startswith(alias) and not k2.startswith(alias + "_")]
+                it["sub"] = {alias + p2: token(x) for p2, x in v.get_params(deep=True).items()}     # (no `clus__*` keys there)
         raised, err, ret = False, "", None
         with warnings.catch_warnings():
             warnings.simplefilter("ignore")
